@@ -11,6 +11,9 @@ slot_<doc>_<facet>   model ordinal (every tree model reachable in scaffold docum
     facet refuse  (C19)  the donor is still attached to ANOTHER document: the assignment must be refused and both
                          documents must be exactly what they were (text, token identities, identity-level tree dump)
 
+Document B deliberately contains the values that are falsy in Python (numbers evaluating to zero, empty strings): the
+generated pivot chains are written as `(self._x and self._x.last_token) or ...`.
+
 The selectors are symbolic ints case-split by the solver (CrossHair path tree exhausted = every configuration decided);
 after the split the real code runs on concrete objects.
 """
@@ -93,6 +96,12 @@ popmeta zz: ; pc
   ? Equity:D  CAD {} @
   Equity:E  7 {"only"}
   Equity:F  7 CAD {# 9 CAD}
+  Equity:G  0.00 USD
+  Equity:H  0 {0 # 5 USD} @ 0 USD
+    zero: 0
+2001-02-04 balance Equity:B  0 ~ 0 EUR
+2001-02-05 *  ""  ""
+  Equity:I  0
 '''
 
 DOCS = {'A': DOC_A, 'B': DOC_B}
